@@ -1612,7 +1612,20 @@ def _rename_formula_old(f, ren):
 
 def _formula_names(f):
     import re
-    return set(re.findall(r"[A-Za-z_][A-Za-z_0-9]*", repr(f)))
+    out = set()
+
+    def rec(g):
+        if g in (True, False):
+            return
+        if g[0] == "op":
+            out.update(re.findall(r"(?<![A-Za-z_0-9.])[A-Za-z_][A-Za-z_0-9]*", g[1]))
+        elif g[0] == "not":
+            rec(g[1])
+        elif g[0] in ("and", "or"):
+            for h in g[1]:
+                rec(h)
+    rec(f)
+    return out
 
 
 def summarize(func_node, canon, leaf=None, keep=()):
@@ -1689,7 +1702,7 @@ def summarize(func_node, canon, leaf=None, keep=()):
         for p_ in parts:
             if isinstance(p_, str):
                 import re
-                surviving |= set(re.findall(r"[A-Za-z_][A-Za-z_0-9]*", p_)) & locals_ if k == "effect" else set()
+                surviving |= set(re.findall(r"(?<![A-Za-z_0-9.])[A-Za-z_][A-Za-z_0-9]*", p_)) & locals_ if k == "effect" else set()
     # name-independent order: a local is identified by the contexts it occurs in (itself written @, other locals _)
     def signature(nm):
         anon = {o: "_" for o in surviving}
